@@ -22,6 +22,9 @@ func vfC37Fuzz(f *testing.F, reader string) {
 	for _, c := range vfC37HostileCases(reader, false) { // structure-aware hostile length fields
 		f.Add(c.Data, byte(0))
 	}
+	for _, c := range vfC37ShapeCases(reader, false) { // structure-aware shape mutations (consistent CRC / length fields)
+		f.Add(c.Data, byte(0))
+	}
 	f.Fuzz(func(t *testing.T, data []byte, mode byte) {
 		if len(data) > 1<<16 {
 			t.Skip("inputs above 64 KiB add nothing")
